@@ -789,6 +789,8 @@ class _ActionSubCommands(_SubParsersAction):
                     subnamespace = subparser.get_defaults(skip_validation=True)
 
             # Update all subcommand settings
+            if key in cfg and not isinstance(cfg[key], Namespace):
+                raise TypeError(f'Expected the settings of subcommand "{key}" to be a mapping. Got value: {cfg[key]}')
             if subnamespace is not None:
                 cfg[key] = subparser.merge_config(cfg.get(key, Namespace()), subnamespace)
 
